@@ -13,10 +13,42 @@ pub struct PreObs {
     /// CalcFee on the notional the operation requests to trade (Open) / on the open notional (Close)
     pub fee: Option<CalcFeeResponse>,
     pub notional: Option<Uint128>,
+    /// subject's position and the vAMM quotes for exchanging its whole size (spot / 15-min TWAP)
+    pub pos: Option<margined_perp::margined_engine::Position>,
+    pub out_spot: Option<Uint128>,
+    pub out_twap: Option<Uint128>,
+    pub spot_price: Option<Uint128>,
+    pub oracle: Option<Uint128>,
+}
+
+/// the trader an operation is about
+pub fn subject(op: &Op) -> &'static str {
+    match op {
+        Op::Liquidate { trader, .. } => trader,
+        _ => op.sender(),
+    }
+}
+
+fn observe_position(r: &Run, op: &Op, pre: &Snap, o: &mut PreObs) {
+    if let Some(p) = &pre.pos[&(r.vi, subject(op))] {
+        o.out_spot = r.w.output_amount(r.vi, p.direction.clone(), p.size.value).ok();
+        o.out_twap = r.w.output_twap(r.vi, p.direction.clone(), p.size.value).ok();
+        o.spot_price = r.w.spot_price(r.vi).ok();
+        o.oracle = r.w.underlying_price(r.vi).ok();
+        o.pos = Some(p.clone());
+    }
 }
 
 pub fn pre_obs(r: &Run, op: &Op, pre: &Snap) -> PreObs {
     let mut o = PreObs::default();
+    if matches!(r.mon.prop, "C04" | "C05" | "C06" | "C07" | "C11") {
+        observe_position(r, op, pre, &mut o);
+        if let Op::Close { who, .. } = op {
+            if let Some(p) = &pre.pos[&(r.vi, *who)] {
+                o.fee = r.w.calc_fee(r.vi, p.notional).ok();
+            }
+        }
+    }
     match r.mon.prop {
         "C12" => match op {
             Op::Open { margin, lev, .. } => {
@@ -42,6 +74,8 @@ pub fn pre_obs(r: &Run, op: &Op, pre: &Snap) -> PreObs {
 pub fn step_oracle(r: &Run, rec: &StepRec) {
     match r.mon.prop {
         "C12" => c12(r, rec),
+        "C04" => c04(r, rec),
+        "C05" => c05(r, rec),
         _ => {}
     }
 }
@@ -97,4 +131,135 @@ fn c12(r: &Run, rec: &StepRec) {
         }
     }
     let _ = si;
+}
+
+// ------------------------------------------------------------------------------------------
+// C04: closing pays exactly the equity; bad debt cannot be cashed out
+// ------------------------------------------------------------------------------------------
+fn c04(r: &Run, rec: &StepRec) {
+    use crate::spec;
+    let d = r.w.d;
+    let what = &rec.what;
+    let trader_op = matches!(rec.op, Op::Open { .. } | Op::Close { .. } | Op::Deposit { .. } | Op::Withdraw { .. });
+    if trader_op {
+        // the insurance fund never loses more than the engine simultaneously records as prepaid bad debt
+        let ins_loss = s(rec.pre.bal["insurance_fund"]).sub(s(rec.post.bal["insurance_fund"]));
+        let debt_rise = s(rec.post.eng.bad_debt).sub(s(rec.pre.eng.bad_debt));
+        prove_d("C04/insurance-fund-loss<=recorded-prepaid-bad-debt", ins_loss.le(debt_rise), what.clone());
+    }
+    if let Op::Close { who, .. } = &rec.op {
+        let (p, q) = match (&rec.obs.pos, rec.obs.out_spot) {
+            (Some(p), Some(q)) => (p, q),
+            _ => return,
+        };
+        let f = spec::funding_owed(p, &rec.pre.cum[r.vi], d);
+        let eq = spec::equity(p, spec::pnl(p, q), f);
+        if rec.tx.ok {
+            prove_d("C04/close-succeeds-only-without-bad-debt", spec::ge0(eq), what.clone());
+            let whole = rec.post.pos[&(r.vi, *who)].is_none();
+            if whole && r.w.token.is_some() {
+                let fees = match &rec.obs.fee {
+                    Some(f) => s(f.toll_fee).add(s(f.spread_fee)),
+                    None => c(0),
+                };
+                prove_d("C04/whole-close-pays-margin+pnl-funding(minus-fees)", delta(rec, who).eq(eq.sub(fees)), what.clone());
+            }
+            if whole {
+                // exchanged amount == the quote taken before (C17 at engine level)
+                let x0 = s(rec.pre.vamm[r.vi].quote_asset_reserve);
+                let x1 = s(rec.post.vamm[r.vi].quote_asset_reserve);
+                prove_d("C04/close-exchanges-the-quoted-amount", x0.sub(x1).abs().eq(s(q)), what.clone());
+            }
+        } else if rec.post.pos[&(r.vi, *who)].is_some() && !rec.tx.err.contains("bad debt") {
+            // informational only: other failure reasons (limits, band, restriction mode) are legitimate
+        }
+        if !rec.tx.ok {
+            // nothing to check: "a close that would leave the trader owing more than the margin is rejected"
+        } else {
+            let _ = ();
+        }
+        // equity < 0  =>  the close (whole or partial) fails
+        prove_d("C04/close-with-negative-equity-rejected", eq.lt(c(0)).implies(Cond::from_bool(!rec.tx.ok)), what.clone());
+    }
+}
+
+// ------------------------------------------------------------------------------------------
+// C05: trader actions never leave the trader under-margined
+// ------------------------------------------------------------------------------------------
+fn c05(r: &Run, rec: &StepRec) {
+    use crate::spec;
+    let d = r.w.d;
+    let what = &rec.what;
+    let cfg = r.w.engine_config();
+    match &rec.op {
+        Op::Open { who, lev, .. } => {
+            // leverage below 1 or above 1/initial ratio is rejected
+            let bad_lev = s(*lev).lt(c(d)).or(s(*lev).mul(s(cfg.initial_margin_ratio)).gt(c(d).mul(c(d))));
+            prove_d("C05/leverage-outside-[1,1/initial]-rejected", bad_lev.implies(Cond::from_bool(!rec.tx.ok)), what.clone());
+            if !rec.tx.ok {
+                return;
+            }
+            if let Some(p1) = &rec.post.pos[&(r.vi, *who)] {
+                if p1.size.value.is_zero() {
+                    return;
+                }
+                match r.w.margin_ratio(r.vi, who) {
+                    Ok(mr) => {
+                        prove_d("C05/margin-ratio-after-open>=maintenance", si(&mr).ge(s(cfg.maintenance_margin_ratio)), what.clone());
+                        // the query itself agrees with the ratio recomputed from primitives
+                        let (os, ot) = (r.w.output_amount(r.vi, p1.direction.clone(), p1.size.value), r.w.output_twap(r.vi, p1.direction.clone(), p1.size.value));
+                        if let (Ok(os), Ok(ot)) = (os, ot) {
+                            let cum = r.w.cum_premium(r.vi);
+                            let i = spec::RatioIn { p: p1, out_spot: os, out_twap: ot, cum: &cum, spot_price: Uint128::zero(), oracle: None, d };
+                            prove_d("C05/margin-ratio-query=recomputed-ratio", si(&mr).eq(spec::ratio_spot_twap(&i)), what.clone());
+                        }
+                    }
+                    Err(e) => {
+                        prove_d("C05/margin-ratio-query-available-after-open", Cond::False, format!("{} {}", what, crate::sx::norm(&e)));
+                    }
+                }
+            }
+        }
+        Op::Withdraw { who, amount } => {
+            if !rec.tx.ok {
+                return;
+            }
+            let p0 = match &rec.obs.pos {
+                Some(p) => p,
+                None => return,
+            };
+            let p1 = match &rec.post.pos[&(r.vi, *who)] {
+                Some(p) => p,
+                None => {
+                    prove_d("C05/withdraw-keeps-position", Cond::False, what.clone());
+                    return;
+                }
+            };
+            let f = spec::funding_owed(p0, &rec.pre.cum[r.vi], d);
+            prove_d("C05/withdraw-wallet-receives-exactly-the-amount", delta(rec, who).eq(s(*amount)), what.clone());
+            prove_d("C05/withdraw-margin-falls-by-amount+funding", s(p0.margin).sub(s(p1.margin)).eq(s(*amount).add(f)), what.clone());
+            match r.w.free_collateral(r.vi, who) {
+                Ok(fc) => {
+                    prove_d("C05/free-collateral-non-negative-after-withdraw", si(&fc).ge(c(0)), what.clone());
+                }
+                Err(e) => {
+                    prove_d("C05/free-collateral-query-available", Cond::False, format!("{} {}", what, crate::sx::norm(&e)));
+                }
+            }
+            // no bad debt is created: the stored margin was enough for amount + funding
+            prove_d("C05/withdraw-creates-no-bad-debt", s(p0.margin).sub(s(*amount)).sub(f).ge(c(0)), what.clone());
+        }
+        Op::Deposit { who, amount, .. } => {
+            if !rec.tx.ok {
+                return;
+            }
+            if let (Some(p0), Some(p1)) = (&rec.obs.pos, &rec.post.pos[&(r.vi, *who)]) {
+                prove_d("C05/deposit-raises-margin-by-exactly-the-amount", s(p1.margin).sub(s(p0.margin)).eq(s(*amount)), what.clone());
+                prove_d("C05/deposit-takes-exactly-the-amount-from-the-wallet", delta(rec, who).eq(s(*amount).neg()), what.clone());
+            } else {
+                prove_d("C05/deposit-needs-a-position", Cond::False, what.clone());
+            }
+        }
+        _ => {}
+    }
 }
